@@ -33,6 +33,13 @@ def toPat (rxId : String → Nat) (s : String) : C11.Pat := ⟨C11.strOf s, true
 def addCalls (rxId : String → Nat) (P : Prog) : List C11.AddCall :=
   P.doms.map fun d => ⟨d.idx, toKind d.key, d.pats.map (toPat rxId)⟩
 
+/-- the pattern as `AddSet` stores it: full / suffix / keyword patterns are lower-cased (fix b65c54c),
+regexes are compiled as written -/
+def docPat (rxId : String → Nat) (k : DKey) (s : String) : C11.Pat :=
+  match k with
+  | .regex => toPat rxId s
+  | _ => { toPat rxId s with s := C11.lower (C11.strOf s) }
+
 def toPrefix (p : Pfx) : C12.Prefix := ⟨p.is4, p.addr, p.bits⟩
 
 /-- what a matcher sees, names as bytes -/
@@ -94,12 +101,12 @@ def responseMatchReal (n : Nat) (rxId : String → Nat) (P : Prog) (env : EnvR) 
 
 /-! ## the specification with the documented pattern kinds (no oracle for full / suffix / keyword) -/
 
-/-- one `qname` parameter: the name is not empty and the pattern is valid for its kind and matches
-the normalised name according to its kind (C11's `patMatches` / `patValid`). -/
+/-- one `qname` parameter: the name is not empty and the (lower-cased) pattern is valid for its kind and
+matches the normalised name according to its kind (C11's `patMatches` / `patValid`). -/
 def paramMatchesDoc (rxId : String → Nat) (env : EnvR) (k : DKey) (s : String) : Bool :=
   env.name != [] &&
-    (C11.patMatches (toKind k) (toPat rxId s) (C11.normName env.name) env.rxHits &&
-      C11.patValid (toKind k) (toPat rxId s))
+    (C11.patMatches (toKind k) (docPat rxId k s) (C11.normName env.name) env.rxHits &&
+      C11.patValid (toKind k) (docPat rxId k s))
 
 def Func.anyParamDoc (rxId : String → Nat) (env : EnvR) : Func → Bool
   | .qname _ ps => ps.any fun p => paramMatchesDoc rxId env p.1 p.2
